@@ -3,8 +3,10 @@ package main
 
 import (
 	"bytes"
+	"errors"
 	"fmt"
 	"io"
+	"os"
 	"reflect"
 	"strings"
 	"time"
@@ -29,15 +31,19 @@ type input struct {
 	h       uint64 // hash of bytes and format flag (set by check); picks the kind of source the bytes are read from
 }
 
-// The decoders are handed io.Readers of four kinds, chosen by the hash of the input (so every prefix, mutation and
+// The decoders are handed io.Readers of seven kinds, chosen by the hash of the input (so every prefix, mutation and
 // truncation of a document meets all of them over the run): a bytes.Reader (an io.ByteReader, used as it is), a
 // plain io.Reader (the decoder wraps it to read single bytes), a plain reader that delivers 1 and 3 bytes at a
-// time, and one that delivers 2, 1 and 5 bytes at a time and ends in an I/O error instead of io.EOF.
-var srcNames = [4]string{"bytes-reader", "plain-reader", "short-reads", "short-reads-ending-in-io-error"}
+// time, one that delivers 2, 1 and 5 bytes at a time and ends in an I/O error instead of io.EOF, a reader that has
+// ReadByte itself (so the decoder uses it as it is) but delivers 2, 1 and 5 bytes per Read - a buffered network
+// connection -, a plain reader whose every other Read returns (0, nil), and one that hands over its last bytes
+// together with io.EOF (both allowed by the io.Reader contract; a byte invented for "nothing yet" turns a strict
+// prefix that ends in front of a zero byte into a complete document).
+var srcNames = [7]string{"bytes-reader", "plain-reader", "short-reads", "short-reads-ending-in-io-error", "bytereader-with-short-reads", "zero-progress-reads", "data-together-with-eof"}
 
-// five inputs in eight come from the bytes.Reader (the other kinds cost the decoder an allocation per single byte)
+// ten inputs in sixteen come from the bytes.Reader (the other kinds cost the decoder an allocation per single byte)
 func (in *input) srcKind() int {
-	if k := int(in.h>>3) & 7; k < 4 {
+	if k := int(in.h>>3) & 15; k < len(srcNames) {
 		return k
 	}
 	return 0
@@ -51,6 +57,12 @@ func source(in *input) io.Reader {
 		return &inject.ChunkReader{B: in.b, Plan: []int{1, 3}}
 	case 3:
 		return &inject.ChunkReader{B: in.b, Plan: []int{2, 1, 5}, Err: inject.ErrInjected}
+	case 4:
+		return &inject.ChunkByteReader{ChunkReader: inject.ChunkReader{B: in.b, Plan: []int{2, 1, 5}}}
+	case 5:
+		return &inject.QuirkReader{B: in.b, Stutter: true}
+	case 6:
+		return &inject.QuirkReader{B: in.b, DataEOF: true}
 	}
 	return bytes.NewReader(in.b)
 }
@@ -58,8 +70,12 @@ func source(in *input) io.Reader {
 func (in *input) wit(entry string) func() any {
 	return func() any {
 		m := map[string]any{"bytes": vm.Hex(in.b), "network": in.network, "origin": in.origin, "entry": entry, "source": srcNames[in.srcKind()]}
-		if entry == "typed-reused" || entry == "hooks-reused" {
+		if entry == "typed-reused" || entry == "hooks-reused" || entry == "containers-reused" {
 			m["receiver_previously_decoded"] = vm.Hex(in.prior)
+		}
+		if entry == "used-receiver" {
+			m["receiver"] = usedVariants[in.usedVariant()].name
+			m["receiver_previously_decoded"] = vm.Hex(in.usedPrior())
 		}
 		return m
 	}
@@ -160,6 +176,12 @@ var entries = []entry{
 	}},
 	{"map", func(in *input, _ reflect.Type) (error, int) {
 		var v map[string]any
+		if !in.network && in.srcKind() == 0 && in.h>>8&1 == 0 {
+			// the shortcut for a document held in memory (file format)
+			err := nbt.Unmarshal(in.b, &v)
+			unmarshalShortcut++
+			return err, 0
+		}
 		_, err := dec(in).Decode(&v)
 		return err, 0
 	}},
@@ -261,6 +283,12 @@ var entries = []entry{
 // what the "raw" entry saw after a successful capture (valid until the next call of the entry)
 var rawUnmarshalErr, rawStrictErr error
 
+// how often the "map" entry went through nbt.Unmarshal
+var unmarshalShortcut int64
+
+// errSkipped: an entry that takes only part of the inputs did not run on this one
+var errSkipped = errors.New("entry not run on this input")
+
 func check(c *vm.Ctx, in *input, typed reflect.Type) {
 	if refnbt.MaxDeclaredLen(in.b, in.network) > 1<<20 || refnbt.MaxDeclaredLen(in.b, !in.network) > 1<<20 {
 		c.Cover("declared-length-above-2^20") // no longer skipped: decoders grow their buffers as data arrives
@@ -280,6 +308,9 @@ func check(c *vm.Ctx, in *input, typed reflect.Type) {
 		var err error
 		var nodes int
 		if c.Guard(e.name, in.wit(e.name), func() { err, nodes = e.run(in, typed) }) {
+			continue
+		}
+		if err == errSkipped {
 			continue
 		}
 		c.Eval(0, false)
@@ -446,6 +477,11 @@ func bigElements(c *vm.Ctx, r *vm.Rand) {
 		"t": {reflect.TypeOf([]string(nil)), reflect.TypeOf([]any(nil)), reflect.TypeOf((*any)(nil)).Elem(), reflect.TypeOf([]nbt.RawMessage(nil)), reflect.TypeOf(nbt.RawMessage{}), reflect.TypeOf(dynbt.Value{})},
 	}
 	keys := []string{"b", "i", "l", "s", "t"}
+	// one more "receiver" for every kind: a struct that does not know the member, so that the skipping reader meets it
+	skipT := reflect.TypeOf(skippedMember{})
+	for k := range recv {
+		recv[k] = append(recv[k], skipT)
+	}
 	for _, n := range []int{4097, 5000, 8193, 20000} {
 		mk := func(key string) *refnbt.Value {
 			switch key {
@@ -488,6 +524,12 @@ func bigElements(c *vm.Ctx, r *vm.Rand) {
 					{Name: "V", Type: rt, Tag: reflect.StructTag(`nbt:"` + key + `"`)},
 					{Name: "Z", Type: reflect.TypeOf(""), Tag: `nbt:"z"`},
 				})
+				if rt == skipT {
+					st = reflect.StructOf([]reflect.StructField{
+						{Name: "A", Type: reflect.TypeOf(int32(0)), Tag: `nbt:"a"`},
+						{Name: "Z", Type: reflect.TypeOf(""), Tag: `nbt:"z"`},
+					})
+				}
 				for _, cut := range cuts {
 					if cut <= 8 || cut > len(doc) {
 						continue
@@ -513,6 +555,9 @@ func bigElements(c *vm.Ctx, r *vm.Rand) {
 						c.Violation("big/success-on-truncated/"+key+"/"+rt.String(), fmt.Sprintf("a document cut %d bytes short inside a %d-element %s member decoded without error into %s", len(doc)-cut, n, key, rt), wit())
 					case err == nil:
 						c.Cover("big.success." + key)
+						if rt == skipT {
+							c.Cover("big.skipped-as-unknown-member." + key)
+						}
 					default:
 						c.Cover("big.error")
 					}
@@ -521,6 +566,9 @@ func bigElements(c *vm.Ctx, r *vm.Rand) {
 		}
 	}
 }
+
+// skippedMember marks the bigElements receiver that has no field for the big member.
+type skippedMember struct{}
 
 // bigByteArrays: byte arrays longer than the first step of the growing read buffers (64 KiB for the typed decoder
 // and for dynbt), whole and cut inside the second and later growth steps - the reads that follow the first one have
@@ -625,6 +673,15 @@ func run(c *vm.Ctx) {
 		return
 	}
 	c.EnableSpinWatch("spin", 15)
+	lap := func(string) {}
+	if os.Getenv("VERIF_TIMING") != "" {
+		last := vm.CPUSeconds()
+		lap = func(what string) {
+			now := vm.CPUSeconds()
+			fmt.Fprintf(os.Stderr, "timing shard %d: %-28s %.2f cpu-s\n", c.Shard, what, now-last)
+			last = now
+		}
+	}
 	r := c.Rand("docs")
 	cfg := nbtgen.Default()
 	cfg.MaxNodes = 40
@@ -699,6 +756,7 @@ func run(c *vm.Ctx) {
 			c.Sample("document", map[string]any{"doc_hex": vm.Hex(doc), "network": network, "fields": len(fields)})
 		}
 	}
+	lap("documents and mutations")
 	// huge declared list lengths (far beyond the input): must come back as errors promptly, whatever the element type.
 	// (Arrays of bytes/ints/longs are left out: their allocation is proportional to the declared length by design, see DESIGN A.3.)
 	if c.Shard == 0 {
@@ -742,7 +800,15 @@ func run(c *vm.Ctx) {
 	if c.Shard == 3%c.NShards {
 		depthBoundary(c)
 	}
+	lap("one-off cases")
+	if c.Shard == 4%c.NShards {
+		longStringDocs(c, c.Rand("long-strings"))
+	}
+	lap("one-off cases (2)")
 	hookedDocs(c, c.Rand("hooked"))
+	lap("hooked documents")
+	containerDocs(c, c.Rand("containers"))
+	lap("container documents")
 	// random byte strings; all strings of length <= 2 (shard 0)
 	if c.Shard == 0 {
 		for a := 0; a < 256; a++ {
@@ -772,4 +838,9 @@ func run(c *vm.Ctx) {
 		check(c, &input{b: b, network: rr.Bool(), origin: "random"}, anyT)
 		c.Cover("mut.random")
 	}
+	lap("short and random inputs")
+	if unmarshalShortcut > 0 {
+		c.CoverN("entry.nbt-Unmarshal-shortcut", unmarshalShortcut)
+	}
+	flushUsed(c)
 }
